@@ -42,6 +42,25 @@ fn unary<T: Dom>(b: VK, a: VK, k: usize) {
         if let Some(log) = &log { T::oblige(&format!("{} over {} t={t}: the leaf received every raw input exactly once, in order", b.name(), a.name()), delivered(log, &xs)); }
     }
 }
+/// three-level chain C(B(A(leaf))) vs the decomposition A -> B -> C over stand-alone views
+fn unary3<T: Dom>(c: VK, b: VK, a: VK, k: usize) {
+    let (inner, log) = over_tap::<T>(&a);
+    let mut chain = build::<T>(&c, build::<T>(&b, inner));
+    let (mut sa, mut sb, mut sc) = (build::<T>(&a, echo()), build::<T>(&b, echo()), build::<T>(&c, echo()));
+    let positive = a.needs_positive() || b.needs_positive() || c.needs_positive();
+    let name = format!("{} over {} over {}", c.name(), b.name(), a.name());
+    let mut xs = vec![];
+    for t in 0..k {
+        let x = T::input(&format!("{}x{t}", if positive { "pos" } else { "" }));
+        if positive { T::assume(lt(T::zero(), x)); }
+        xs.push(x);
+        chain.update(x);
+        sa.update(x);
+        if let Some(v) = sa.last() { sb.update(v); if let Some(w) = sb.last() { sc.update(w); } }
+        T::oblige(&format!("{name} t={t}: chain output identical to the stand-alone pipeline"), opt_ident(chain.last(), sc.last()));
+        if let Some(log) = &log { T::oblige(&format!("{name} t={t}: the leaf received every raw input exactly once, in order"), delivered(log, &xs)); }
+    }
+}
 fn combine<T: Dom>(op: usize, a: VK, c: VK, outer: Option<VK>, k: usize) {
     let (in1, log1) = over_tap::<T>(&a);
     let (in2, log2) = over_tap::<T>(&c);
@@ -128,14 +147,29 @@ pub fn units(tier: Tier, seed: u64) -> Vec<Unit> {
             u.push(unit!(format!("C01/{}({}, {}){}/k={k}", BINOPS[op], a.name(), c.name(), outer_w.as_ref().map(|o| format!(" under {}", o.name())).unwrap_or_default()), combine(op, a.clone(), c.clone(), outer_w.clone(), k)));
         }
     }
+    // three-level chains (and the same view type twice) over the cheaper views
+    {
+        let pool: Vec<VK> = wrappers(2).into_iter().filter(|v| matches!(v, VK::Gte(_) | VK::Lte(_) | VK::Tanh | VK::Sma(_) | VK::Ema(_) | VK::Alma(_) | VK::Cumulative(_) | VK::SuperSmoother(_) | VK::LaguerreFilter(_) | VK::CyberCycle(_) | VK::Roofing(..) | VK::Min(_) | VK::Max(_) | VK::Roc(_) | VK::WelfordRolling | VK::WelfordOnline(_) | VK::Vst(_) | VK::Rsi(_) | VK::MyRSI(_) | VK::CoG(_) | VK::BinaryEntropy(_) | VK::HLNormalizer(_) | VK::TrendFlex(_) | VK::ReFlex(_))).collect();
+        let mut seen = std::collections::HashSet::new();
+        let n3 = if q { 30 } else { 300 };
+        for i in 0..n3 {
+            let (c, b, a) = if i % 6 == 5 { let v = pool[rng.below(pool.len())].clone(); (v.clone(), v.clone(), v) } else { (pool[rng.below(pool.len())].clone(), pool[rng.below(pool.len())].clone(), pool[rng.below(pool.len())].clone()) };
+            if !seen.insert((c.name(), b.name(), a.name())) { continue; }
+            let k = (warm(&a) + warm(&b) + warm(&c) + 2).min(9);
+            u.push(unit!(format!("C01/unary3/{} over {} over {}/k={k}", c.name(), b.name(), a.name()), unary3(c.clone(), b.clone(), a.clone(), k)));
+        }
+    }
+    let first_static = u.len();
+    let _ = first_static;
     for x in u.iter_mut() { x.path_cap = 4000; x.budget_s = if q { 8.0 } else { 300.0 }; x.branch_nl_timeout_ms = Some(if q { 250 } else { 1000 }); }
+    u.extend(crate::props::c01_static::units(q));
     u
 }
 pub fn meta() -> Meta {
     Meta {
-        functions: vec!["every unary wrapper of the crate (32: GTE, LTE, Tanh, Drawdown, LnReturn, WelfordRolling and the 26 sliding-window views; PFE/EFT with an identity moving average) over every inner view (those 32 over Echo, plus Echo and Constant), and Add/Subtract/Multiply/Divide over pairs, composed through Box<dyn View<Sym>>"],
-        bounds: "window length N=2 (quick) / {2,3} (thorough), raised to each view's minimum, plus every wrapper at N=1 over 2 (quick) / 8 (thorough) value-changing inner views; k = warm-up(A)+warm-up(B)+2 capped at 9; quick: every wrapper at least once as outer and once as inner plus 20 VERIF_SEED-selected pairs and 40 seeded combinator pairs; thorough: all 32x34 unary pairs and all 4 x pairs of the simple inner views at N=2, 200 seeded of each at N=3; inputs unconstrained reals (positive for Drawdown/LnReturn); all comparison outcomes up to 4000 paths / the per-unit time budget (reported when hit)",
-        outside: vec!["three-level unary chains (the obligation is compositional)", "N > 3", "pairs not selected by the seed in the quick tier"],
+        functions: vec!["every unary wrapper of the crate (32: GTE, LTE, Tanh, Drawdown, LnReturn, WelfordRolling and the 26 sliding-window views; PFE/EFT with an identity moving average) over every inner view (those 32 over Echo, plus Echo and Constant), and Add/Subtract/Multiply/Divide over pairs, composed through Box<dyn View<Sym>>", "192 statically typed chains (nested generic types, no trait object): 12 outer views over 8 composite inner views, 6 outer views over Add/Subtract/Multiply/Divide of 4 child pairs"],
+        bounds: "window length N=2 (quick) / {2,3} (thorough), raised to each view's minimum, plus every wrapper at N=1 over 2 (quick) / 8 (thorough) value-changing inner views; k = warm-up(A)+warm-up(B)+2 capped at 9; quick: 30 (thorough 300) seeded three-level chains incl. the same view three times; every wrapper at least once as outer and once as inner plus 20 VERIF_SEED-selected pairs and 40 seeded combinator pairs; thorough: all 32x34 unary pairs and all 4 x pairs of the simple inner views at N=2, 200 seeded of each at N=3; inputs unconstrained reals (positive for Drawdown/LnReturn); all comparison outcomes up to 4000 paths / the per-unit time budget (reported when hit)",
+        outside: vec!["chains deeper than three", "N > 3", "pairs not selected by the seed in the quick tier"],
         assumptions: vec!["term identity => bit-identical in every float format; equal-in-reals-only outcomes are counted separately (equal_in_reals_only)"],
     }
 }
